@@ -428,12 +428,14 @@ func runValue[R any](c *checker, bd *binding[R], v R) {
 			bd.onInput(c, vid, m)
 		}
 	}
-	if _, dup := sampled.LoadOrStore(bd.name, true); !dup && sampleOf[bd.name] && len(encd) < 200 {
+	if sampleOf[bd.name] && len(encd) > 12 && len(encd) < 200 && firstSample(bd.name) {
 		c.r.Sample(map[string]any{"structure": bd.name, "value": vid, "reference_encoding": rep.Hex(encd), "mutated_inputs": len(fam)})
 	}
 }
 
 var sampled sync.Map
+
+func firstSample(name string) bool { _, dup := sampled.LoadOrStore(name, true); return !dup }
 
 var sampleOf = map[string]bool{"MerkleTreeLeaf": true, "SignedCertificateTimestamp": true, "DigitallySigned": true,
 	"SignedCertificateTimestampList": true, "PrecertChainEntry": true, "TreeHeadSignature": true}
